@@ -7,6 +7,12 @@ use crate::user::User;
 #[cfg(feature = "clpfd")]
 use crate::operator::onceo;
 
+#[cfg(feature = "clpfd")]
+use crate::compound::CompoundObject;
+
+#[cfg(feature = "clpfd")]
+use crate::operator::conj::Conj;
+
 use crate::state::map_sum::map_sum;
 
 /// Enforces the finite domain constraints by expanding the domains into sequences of numbers,
@@ -41,9 +47,26 @@ fn force_ans<U: User, E: Engine<U>>(x: LTerm<U, E>) -> Goal<U, E> {
                 ]);
                 g.solve(solver, state)
             },
+            (LTermInner::<U, E>::Compound(compound), _) => {
+                // Label the finite-domain variables inside compound terms like list elements
+                let g: Goal<U, E> = Conj::from_vec(force_ans_compound(compound.as_ref()));
+                g.solve(solver, state)
+            },
             (_, _) => solver.start(&Goal::Succeed, state),
         }
     })
+}
+
+#[cfg(feature = "clpfd")]
+fn force_ans_compound<U: User, E: Engine<U>>(compound: &dyn CompoundObject<U, E>) -> Vec<Goal<U, E>> {
+    let mut goals = vec![];
+    for child in compound.children() {
+        match child.as_term() {
+            Some(v) => goals.push(force_ans(v.clone())),
+            None => goals.extend(force_ans_compound(child)),
+        }
+    }
+    goals
 }
 
 #[cfg(feature = "clpfd")]
